@@ -367,3 +367,194 @@ pub proof fn lemma_nfv_delegate(w: World, acct: Address, d: Address)
         assert(bal(w2, a) == bal(w, a));
     }
 }
+
+// ---- histories of a votes-enabled NFT ----
+pub enum NJOp {
+    /// mint / sequential_mint / transfer / transfer_from / burn / burn_from through NonFungibleVotes::*,
+    /// approve / approve_for_all through Base
+    Tok(NOp),
+    Delegate { acct: Address, dele: Address },
+    Tick { seq: u32, ts: u64 },
+}
+pub open spec fn njop_guard(w: World, op: NJOp) -> bool {
+    match op {
+        // `op_assume`: a mint never names an id in use (documented duty of the integrator, see specs/nft)
+        NJOp::Tok(f) => nfv_guard(w, f) && op_assume(w, f) && w.auths =~= Set::empty(),
+        NJOp::Delegate { acct, dele } => delegate_guard(w, acct, dele),
+        NJOp::Tick { seq, ts } => seq >= w.ledger_seq,
+    }
+}
+pub open spec fn njop_post(w: World, op: NJOp) -> World {
+    match op {
+        NJOp::Tok(f) => World { auths: Set::empty(), ..nfv_post(w, f) },
+        NJOp::Delegate { acct, dele } => World { auths: Set::empty(), ..delegate_post(w, acct, dele) },
+        NJOp::Tick { seq, ts } => World { ledger_seq: seq, timestamp: ts, auths: Set::empty(), auth_args: Set::empty(), ..w },
+    }
+}
+pub open spec fn nj_run(w0: World, steps: Seq<NJOp>) -> World
+    decreases steps.len()
+{
+    if steps.len() == 0 { World { auths: Set::empty(), ..w0 } } else { njop_post(nj_run(w0, steps.drop_last()), steps.last()) }
+}
+pub open spec fn nj_valid(w0: World, steps: Seq<NJOp>) -> bool
+    decreases steps.len()
+{
+    steps.len() == 0 || (nj_valid(w0, steps.drop_last()) && njop_guard(nj_run(w0, steps.drop_last()), steps.last()))
+}
+/// deployment: no token entries, no votes entries
+pub open spec fn nj_genesis(w0: World) -> bool {
+    &&& forall|k: SV| w0.persistent.contains_key(k) ==> !is_owner_key(k)
+    &&& forall|a: Address| (#[trigger] pget(w0, k_bal(a))).is_none()
+    &&& v_genesis(w0)
+}
+pub open spec fn nj_hist_val(w0: World, steps: Seq<NJOp>, t: CheckpointType, q: u32) -> u128
+    decreases steps.len()
+{
+    if nj_run(w0, steps).ledger_seq <= q { cp_latest(nj_run(w0, steps), t) }
+    else if steps.len() == 0 { 0 }
+    else { nj_hist_val(w0, steps.drop_last(), t, q) }
+}
+
+pub proof fn lemma_nfv_no_owner_keys(m: Map<SV, SV>, a: Address)
+    requires forall|k: SV| m.contains_key(k) ==> !is_owner_key(k)
+    ensures psum(m, own_proj(a)) == 0
+    decreases m.dom().len()
+{
+    if m.dom().len() != 0 {
+        let c = m.dom().choose();
+        assert(m.contains_key(c));
+        lemma_nfv_no_owner_keys(m.remove(c), a);
+    }
+}
+pub proof fn lemma_inv_nfv_frame(w: World, w2: World)
+    requires inv_nfv(w), w2.persistent == w.persistent, w2.instance == w.instance, w2.ledger_seq >= w.ledger_seq,
+    ensures inv_nfv(w2), forall|t: CheckpointType, q: u32| #[trigger] past_value(w2, t, q) == past_value(w, t, q),
+{
+    lemma_inv_v_frame(w, w2);
+    assert forall|a: Address| (#[trigger] bal(w2, a)) as int == owned_count(w2, a) by { assert(bal(w, a) as int == owned_count(w, a)); }
+    assert forall|a: Address| #[trigger] v_units(w2, a) as int == bal(w2, a) as int by { assert(v_units(w, a) as int == bal(w, a) as int); assert(bal(w2, a) == bal(w, a)); }
+}
+pub proof fn lemma_njstep(w: World, op: NJOp)
+    requires inv_nfv(w), njop_guard(w, op),
+    ensures inv_nfv(njop_post(w, op)), njop_post(w, op).ledger_seq >= w.ledger_seq,
+        forall|t: CheckpointType, q: u32| q < w.ledger_seq ==> #[trigger] past_value(njop_post(w, op), t, q) == past_value(w, t, q),
+{
+    let w2 = njop_post(w, op);
+    match op {
+        NJOp::Tok(f) => {
+            let wm = nfv_post(w, f);
+            lemma_nfv_op(w, f);
+            lemma_inv_nfv_frame(wm, w2);
+            assert forall|t: CheckpointType, q: u32| q < w.ledger_seq implies #[trigger] past_value(w2, t, q) == past_value(w, t, q) by {
+                assert(past_value(wm, t, q) == past_value(w, t, q));
+            }
+        }
+        NJOp::Delegate { acct, dele } => {
+            let wm = delegate_post(w, acct, dele);
+            lemma_nfv_delegate(w, acct, dele);
+            lemma_delegate_inv(w, acct, dele);
+            lemma_ns_delegate(w, acct, dele);
+            lemma_inv_nfv_frame(wm, w2);
+            assert forall|t: CheckpointType, q: u32| q < w.ledger_seq implies #[trigger] past_value(w2, t, q) == past_value(w, t, q) by {
+                assert(past_value(wm, t, q) == past_value(w, t, q));
+            }
+        }
+        NJOp::Tick { seq, ts } => { lemma_inv_nfv_frame(w, w2); }
+    }
+}
+pub proof fn lemma_nj_genesis(w0: World)
+    requires nj_genesis(w0),
+    ensures inv_nfv(nj_run(w0, Seq::empty())),
+        forall|t: CheckpointType, q: u32| #[trigger] past_value(nj_run(w0, Seq::empty()), t, q) == nj_hist_val(w0, Seq::empty(), t, q),
+{
+    let steps = Seq::<NJOp>::empty();
+    let w = nj_run(w0, steps);
+    lemma_v_genesis(w0);
+    assert(w == v_run(w0, Seq::empty()));
+    assert forall|a: Address| (#[trigger] bal(w, a)) as int == owned_count(w, a) by {
+        lemma_nfv_no_owner_keys(w.persistent, a);
+        assert(pget(w0, k_bal(a)).is_none());
+    }
+    assert forall|a: Address| #[trigger] v_units(w, a) as int == bal(w, a) as int by {
+        assert(pget(w0, k_bal(a)).is_none());
+        assert(pget(w0, VotesStorageKey::VotingUnits(a)).is_none());
+    }
+    assert forall|t: CheckpointType, q: u32| #[trigger] past_value(w, t, q) == nj_hist_val(w0, steps, t, q) by {
+        assert(past_value(w, t, q) == 0);
+        assert(cp_latest(w, t) == 0);
+    }
+}
+pub proof fn lemma_nj_hist_point(w0: World, steps: Seq<NJOp>, t: CheckpointType, q: u32)
+    requires nj_genesis(w0), nj_valid(w0, steps), steps.len() > 0,
+        inv_nfv(nj_run(w0, steps.drop_last())),
+        past_value(nj_run(w0, steps.drop_last()), t, q) == nj_hist_val(w0, steps.drop_last(), t, q),
+    ensures past_value(nj_run(w0, steps), t, q) == nj_hist_val(w0, steps, t, q),
+{
+    let w = nj_run(w0, steps);
+    let pre = steps.drop_last();
+    let wp = nj_run(w0, pre);
+    lemma_njstep(wp, steps.last());
+    if w.ledger_seq <= q {
+        assert(seq_ok(w, t));
+        lemma_past_is_latest(w, t, q);
+    } else {
+        assert(nj_hist_val(w0, steps, t, q) == nj_hist_val(w0, pre, t, q));
+        if q < wp.ledger_seq {
+            assert(past_value(w, t, q) == past_value(wp, t, q));
+        } else {
+            assert(steps.last() is Tick);
+            lemma_inv_nfv_frame(wp, w);
+        }
+    }
+}
+/// C13 over all histories of a votes-enabled NFT: each account's voting units equal the number of tokens it holds
+/// (which is the number of tokens `owner_of` reports for it, inv_own), the votes invariant holds, and a past lookup
+/// answers the value at the end of that ledger
+pub proof fn lemma_nj_history(w0: World, steps: Seq<NJOp>)
+    requires nj_genesis(w0), nj_valid(w0, steps),
+    ensures
+        //@@ C13:history.nfv_units_equal_balance_and_votes_inv
+        inv_nfv(nj_run(w0, steps)),
+        //@@ C13:history.nfv_past_lookup_is_value_at_end_of_ledger
+        forall|t: CheckpointType, q: u32| #[trigger] past_value(nj_run(w0, steps), t, q) == nj_hist_val(w0, steps, t, q),
+    decreases steps.len()
+{
+    let w = nj_run(w0, steps);
+    if steps.len() == 0 {
+        lemma_nj_genesis(w0);
+        assert(steps =~= Seq::empty());
+    } else {
+        let pre = steps.drop_last();
+        let wp = nj_run(w0, pre);
+        lemma_nj_history(w0, pre);
+        lemma_njstep(wp, steps.last());
+        assert forall|t: CheckpointType, q: u32| #[trigger] past_value(w, t, q) == nj_hist_val(w0, steps, t, q) by {
+            lemma_nj_hist_point(w0, steps, t, q);
+        }
+    }
+}
+/// no later token operation, delegation or ledger advance changes an answer about a past ledger
+pub proof fn lemma_nj_past_stable(w0: World, steps: Seq<NJOp>, k: int)
+    requires nj_genesis(w0), nj_valid(w0, steps), 0 <= k <= steps.len(),
+    ensures
+        nj_run(w0, steps.take(k)).ledger_seq <= nj_run(w0, steps).ledger_seq,
+        //@@ C13:history.nfv_past_never_changes
+        forall|t: CheckpointType, q: u32| q < nj_run(w0, steps.take(k)).ledger_seq ==>
+            #[trigger] past_value(nj_run(w0, steps), t, q) == past_value(nj_run(w0, steps.take(k)), t, q),
+    decreases steps.len()
+{
+    if k == steps.len() { assert(steps.take(k) =~= steps); }
+    else {
+        let pre = steps.drop_last();
+        let wp = nj_run(w0, pre);
+        let wk = nj_run(w0, steps.take(k));
+        assert(pre.take(k) =~= steps.take(k));
+        lemma_nj_past_stable(w0, pre, k);
+        lemma_nj_history(w0, pre);
+        lemma_njstep(wp, steps.last());
+        assert forall|t: CheckpointType, q: u32| q < wk.ledger_seq implies
+            #[trigger] past_value(nj_run(w0, steps), t, q) == past_value(wk, t, q) by {
+            assert(past_value(wp, t, q) == past_value(wk, t, q));
+        }
+    }
+}
